@@ -237,7 +237,10 @@ def checkElem (code : String) (v : V) (bs : Bytes) : List String :=
         let start := if c = 0xffff then 8 else 4
         let pl := bs.drop start
         let w := if m = 1 then pl.length / 2 else pl.length
-        match payloadBytes w val, (if m = 1 then payloadBytes w mask else some []) with
+        -- a decoded net.IP holds an IPv4 address in its 16-byte v4-mapped form
+        let norm (o : Option Bytes) : Option Bytes :=
+          o.map fun b => if w = 4 ∧ b.length = 16 ∧ b.take 12 = zeros 10 ++ [0xff, 0xff] then b.drop 12 else b
+        match norm (payloadBytes w val), (if m = 1 then norm (payloadBytes w mask) else some []) with
         | some vb, some mb => if pl = vb ++ mb then [] else [s!"match field payload {toHex pl}, supplied value {toHex vb} mask {toHex mb}"]
         | _, _ => []
       | _ => []
